@@ -25,6 +25,12 @@ use std::os::unix::io::AsRawFd;
 use std::sync::atomic::{AtomicBool, AtomicU64, Ordering};
 use std::sync::Arc;
 
+// the system-call tap: results of the non-blocking calls on tracked sockets, for the trace acceptor of IoModel
+#[path = "iotap/tap.rs"]
+mod tap;
+/// "not tracked"
+const NOF: u64 = u64::MAX;
+
 fn envs(k: &str, d: &str) -> String {
     std::env::var(k).unwrap_or_else(|_| d.into())
 }
@@ -92,7 +98,7 @@ struct Dir {
     sizes: Vec<usize>,
 }
 
-fn write_stream<W: Write>(w: &mut W, d: &Dir, rng: &mut Rng, maxchunk: u64, wrall: bool, who: &str) {
+fn write_stream<W: Write>(w: &mut W, d: &Dir, rng: &mut Rng, maxchunk: u64, wrall: bool, who: &str, tf: u64) {
     let c = mayv::ctx();
     let mut off = 0u64;
     let mut h = 0xcbf29ce484222325u64;
@@ -113,7 +119,17 @@ fn write_stream<W: Write>(w: &mut W, d: &Dir, rng: &mut Rng, maxchunk: u64, wral
             }
             off += n as u64;
         } else {
-            match w.write(&buf[..n]) {
+            if tf != NOF {
+                tap::call_wr(tf, false, off, n);
+            }
+            let res = w.write(&buf[..n]);
+            if tf != NOF {
+                match &res {
+                    Ok(k) => tap::ret_ok(tf, off, *k),
+                    Err(_) => tap::ret_err(tf),
+                }
+            }
+            match res {
                 Ok(k) if k >= 1 && k <= n => {
                     for i in 0..k {
                         h = roll(h, buf[i]);
@@ -135,7 +151,7 @@ fn write_stream<W: Write>(w: &mut W, d: &Dir, rng: &mut Rng, maxchunk: u64, wral
     d.sent_hash.store(h, Ordering::SeqCst);
 }
 
-fn read_stream<R: Read>(r: &mut R, d: &Dir, rng: &mut Rng, maxbuf: u64, who: &str) {
+fn read_stream<R: Read>(r: &mut R, d: &Dir, rng: &mut Rng, maxbuf: u64, who: &str, tf: u64) {
     let c = mayv::ctx();
     let mut off = 0u64;
     let mut h = 0xcbf29ce484222325u64;
@@ -144,7 +160,17 @@ fn read_stream<R: Read>(r: &mut R, d: &Dir, rng: &mut Rng, maxbuf: u64, who: &st
     loop {
         let n = rng.range(1, maxbuf) as usize;
         brk();
-        match r.read(&mut buf[..n]) {
+        if tf != NOF {
+            tap::call_rd(tf, false, None, n);
+        }
+        let res = r.read(&mut buf[..n]);
+        if tf != NOF {
+            match &res {
+                Ok(k) => tap::ret_ok(tf, off, *k),
+                Err(_) => tap::ret_err(tf),
+            }
+        }
+        match res {
             Ok(0) => {
                 if !d.closed.load(Ordering::SeqCst) {
                     c.fail(format!("{who}: read returned 0 at offset {off} although the writer has not closed (sent so far {})", d.sent.load(Ordering::SeqCst)));
@@ -187,12 +213,22 @@ fn msg_byte(seed: u64, k: usize, i: usize) -> u8 {
     gen(seed ^ ((k as u64) << 32), i as u64)
 }
 
-fn send_msgs(send: &dyn Fn(&[u8]) -> std::io::Result<usize>, d: &Dir, who: &str) {
+fn send_msgs(send: &dyn Fn(&[u8]) -> std::io::Result<usize>, d: &Dir, who: &str, tf: u64) {
     let c = mayv::ctx();
     for (k, &sz) in d.sizes.iter().enumerate() {
         let buf: Vec<u8> = (0..sz).map(|i| msg_byte(d.seed, k, i)).collect();
         brk();
-        match send(&buf) {
+        if tf != NOF {
+            tap::call_wr(tf, true, k as u64, sz);
+        }
+        let res = send(&buf);
+        if tf != NOF {
+            match &res {
+                Ok(n) => tap::ret_ok(tf, k as u64, *n),
+                Err(_) => tap::ret_err(tf),
+            }
+        }
+        match res {
             Ok(n) if n == sz => {}
             Ok(n) => c.fail(format!("{who}: send of datagram {k} ({sz} bytes) reported {n}")),
             Err(e) => {
@@ -204,13 +240,23 @@ fn send_msgs(send: &dyn Fn(&[u8]) -> std::io::Result<usize>, d: &Dir, who: &str)
     }
 }
 
-fn recv_msgs(recv: &dyn Fn(&mut [u8]) -> std::io::Result<usize>, d: &Dir, rng: &mut Rng, maxmsg: u64, who: &str) {
+fn recv_msgs(recv: &dyn Fn(&mut [u8]) -> std::io::Result<usize>, d: &Dir, rng: &mut Rng, maxmsg: u64, who: &str, tf: u64) {
     let c = mayv::ctx();
     let mut buf = vec![0u8; (maxmsg + 64) as usize];
     for (k, &sz) in d.sizes.iter().enumerate() {
         let n = rng.range(maxmsg.max(1), maxmsg + 64) as usize;
         brk();
-        match recv(&mut buf[..n]) {
+        if tf != NOF {
+            tap::call_rd(tf, true, None, n);
+        }
+        let res = recv(&mut buf[..n]);
+        if tf != NOF {
+            match &res {
+                Ok(got) => tap::ret_ok(tf, k as u64, *got),
+                Err(_) => tap::ret_err(tf),
+            }
+        }
+        match res {
             Ok(got) => {
                 if got != sz {
                     c.fail(format!("{who}: datagram {k} has {got} bytes, {sz} were sent (boundary lost)"));
@@ -293,6 +339,7 @@ fn main() {
     let close_how = envs("MAYV_CLOSE", "mix");
     let nmsgs = envn("MAYV_MSGS", 12) as usize;
     run(cfg, move |ctx| {
+        let tap_on = tap::enable();
         let mut jobs: Vec<(String, bool, Job)> = vec![];
         let pick = |sel: &str, r: u64| match sel {
             "co" => true,
@@ -322,6 +369,9 @@ fn main() {
                 _ => ctx.rand() % 2 == 0,
             };
             let (rs1, rs2, rs3, rs4) = (ctx.rand() | 1, ctx.rand() | 1, ctx.rand() | 1, ctx.rand() | 1);
+            // model descriptors of this connection (MAYV_TAP=1: sockets of plain, non-split unix connections are tracked)
+            let tracked = tap_on && ((sock == "unixstream" && !duplex && !wrall) || sock == "unixdgram");
+            let (tfa, tfb) = if tracked { (2 * cn as u64, 2 * cn as u64 + 1) } else { (NOF, NOF) };
             match sock.as_str() {
                 "unixstream" | "tcp" => {
                     // the two connected stream endpoints, as boxed Read + Write + split
@@ -336,29 +386,29 @@ fn main() {
                                 let (mut br, mut bw) = b.split().expect("split");
                                 let (d1, d2, d3, d4) = (ab.clone(), ab.clone(), ba.clone(), ba.clone());
                                 jobs.push((format!("c{cn}.aw"), w_co, Box::new(move || {
-                                    write_stream(&mut aw, &d1, &mut Rng(rs1), maxchunk, wrall, "a.writer");
+                                    write_stream(&mut aw, &d1, &mut Rng(rs1), maxchunk, wrall, "a.writer", NOF);
                                     d1.closed.store(true, Ordering::SeqCst);
                                     let _ = $shutdown(aw.inner(), std::net::Shutdown::Write);
                                     park_half(aw);
                                 })));
                                 jobs.push((format!("c{cn}.br"), r_co, Box::new(move || {
-                                    read_stream(&mut br, &d2, &mut Rng(rs2), maxbuf, "b.reader");
+                                    read_stream(&mut br, &d2, &mut Rng(rs2), maxbuf, "b.reader", NOF);
                                     park_half(br);
                                 })));
                                 jobs.push((format!("c{cn}.bw"), r_co, Box::new(move || {
-                                    write_stream(&mut bw, &d3, &mut Rng(rs3), maxchunk, wrall, "b.writer");
+                                    write_stream(&mut bw, &d3, &mut Rng(rs3), maxchunk, wrall, "b.writer", NOF);
                                     d3.closed.store(true, Ordering::SeqCst);
                                     let _ = $shutdown(bw.inner(), std::net::Shutdown::Write);
                                     park_half(bw);
                                 })));
                                 jobs.push((format!("c{cn}.ar"), w_co, Box::new(move || {
-                                    read_stream(&mut ar, &d4, &mut Rng(rs4), maxbuf, "a.reader");
+                                    read_stream(&mut ar, &d4, &mut Rng(rs4), maxbuf, "a.reader", NOF);
                                     park_half(ar);
                                 })));
                             } else {
                                 let (d1, d2) = (ab.clone(), ab.clone());
                                 jobs.push((format!("c{cn}.w"), w_co, Box::new(move || {
-                                    write_stream(&mut a, &d1, &mut Rng(rs1), maxchunk, wrall, "writer");
+                                    write_stream(&mut a, &d1, &mut Rng(rs1), maxchunk, wrall, "writer", tfa);
                                     d1.closed.store(true, Ordering::SeqCst);
                                     if shut {
                                         let _ = $shutdown(&a, std::net::Shutdown::Write);
@@ -367,7 +417,7 @@ fn main() {
                                     drop(a);
                                 })));
                                 jobs.push((format!("c{cn}.r"), r_co, Box::new(move || {
-                                    read_stream(&mut b, &d2, &mut Rng(rs2), maxbuf, "reader");
+                                    read_stream(&mut b, &d2, &mut Rng(rs2), maxbuf, "reader", tfb);
                                 })));
                             }
                         }};
@@ -376,6 +426,10 @@ fn main() {
                         let (a, b) = may::os::unix::net::UnixStream::pair().expect("pair");
                         set_sockbuf(a.as_raw_fd(), sockbuf);
                         set_sockbuf(b.as_raw_fd(), sockbuf);
+                        if tap_on && !duplex && !wrall {
+                            tap::track(a.as_raw_fd(), tfa, false);
+                            tap::track(b.as_raw_fd(), tfb, false);
+                        }
                         stream_jobs!(a, b, |s: &may::os::unix::net::UnixStream, how| s.shutdown(how));
                     } else {
                         // loopback TCP on an ephemeral port: accept in a coroutine, connect from main
@@ -402,13 +456,17 @@ fn main() {
                     let (a, b) = may::os::unix::net::UnixDatagram::pair().expect("pair");
                     set_sockbuf(a.as_raw_fd(), sockbuf);
                     set_sockbuf(b.as_raw_fd(), sockbuf);
+                    if tap_on {
+                        tap::track(a.as_raw_fd(), tfa, true);
+                        tap::track(b.as_raw_fd(), tfb, true);
+                    }
                     let (d1, d2) = (d.clone(), d.clone());
                     jobs.push((format!("c{cn}.w"), w_co, Box::new(move || {
-                        send_msgs(&|m| a.send(m), &d1, "sender");
+                        send_msgs(&|m| a.send(m), &d1, "sender", tfa);
                         d1.closed.store(true, Ordering::SeqCst);
                     })));
                     jobs.push((format!("c{cn}.r"), r_co, Box::new(move || {
-                        recv_msgs(&|m| b.recv(m), &d2, &mut Rng(rs2), maxchunk, "receiver");
+                        recv_msgs(&|m| b.recv(m), &d2, &mut Rng(rs2), maxchunk, "receiver", tfb);
                     })));
                 }
                 "udp" => {
@@ -424,15 +482,15 @@ fn main() {
                     let (d1, d2) = (d.clone(), d.clone());
                     jobs.push((format!("c{cn}.w"), w_co, Box::new(move || {
                         if connected {
-                            send_msgs(&|m| a.send(m), &d1, "sender");
+                            send_msgs(&|m| a.send(m), &d1, "sender", NOF);
                         } else {
-                            send_msgs(&|m| a.send_to(m, ba), &d1, "sender");
+                            send_msgs(&|m| a.send_to(m, ba), &d1, "sender", NOF);
                         }
                         d1.closed.store(true, Ordering::SeqCst);
                     })));
                     jobs.push((format!("c{cn}.r"), r_co, Box::new(move || {
                         if connected {
-                            recv_msgs(&|m| b.recv(m), &d2, &mut Rng(rs2), maxchunk, "receiver");
+                            recv_msgs(&|m| b.recv(m), &d2, &mut Rng(rs2), maxchunk, "receiver", NOF);
                         } else {
                             recv_msgs(
                                 &|m| {
@@ -447,6 +505,7 @@ fn main() {
                                 &mut Rng(rs2),
                                 maxchunk,
                                 "receiver",
+                                NOF,
                             );
                         }
                     })));
